@@ -263,7 +263,11 @@ def stepPC (s : Sh) (t : Th) : PC → Sh × Th × List Ev
       if cur = g then (s, { t with pc := some (.ix p (.recover dead m)), rvGen := g }, [.cas (egcVar n) .acqrel .acq g g true])
       else if cur % 2 = 1 then (s, { t with pc := some (.rvDdist p dead m n cur), rvGen := cur }, [.cas (egcVar n) .acqrel .acq cur g false])
       else (s, { t with pc := some (.ix p (.recover dead m)), rvGen := cur }, [.cas (egcVar n) .acqrel .acq cur g false])
-  | .rvHookDist p dead m n g => (s, { t with pc := some (.rvHookCas p dead m n g) }, [.load "edist" .rlx 0])
+  | .rvHookDist p dead m n g =>
+      -- success hook: nothing to set to empty when the dead owner never published an element
+      -- (even generation: it died inside `add`); no memory access happens in that case
+      if g % 2 = 1 then (s, { t with pc := some (.rvHookCas p dead m n g) }, [.load "edist" .rlx 0])
+      else (s, { t with pc := some (.ix p (.recover dead m)) }, [])
   | .rvHookCas p dead m n g =>
       let cur := s.egc.getD n 0
       if cur = g then ({ s with egc := s.egc.set n (g + 1) }, { t with pc := some (.ix p (.recover dead m)), rvDone := t.rvDone ++ [(n, g)] },
